@@ -31,6 +31,8 @@ class Module:
             self.tree = ast.parse(src, filename=path)
         except SyntaxError as e:
             raise AnalysisError("%s does not parse: %s" % (relpath, e))
+        from .desugar import desugar
+        desugar(self.tree)
         for node in ast.walk(self.tree):
             for ch in ast.iter_child_nodes(node):
                 ch._parent = node
